@@ -12,7 +12,8 @@ from .client import Client
 from .world import World, render_config, default_general, BIN
 
 SHARD_KEYS = {'0': ['0'], '0_1': ['0', '1'], '0_1_2': ['0', '1', '2'], '1': ['1'], '1_2': ['1', '2'], '0_2': ['0', '2'],
-              '0_x': ['0', 'x'], '0_neg1': ['0', '-1'], '0_01': ['0', '01'], '0_to_11': [str(i) for i in range(12)]}
+              '0_x': ['0', 'x'], '0_neg1': ['0', '-1'], '0_01': ['0', '01'], '0_to_11': [str(i) for i in range(12)],
+              '0_00': ['0', '00'], '0_00_2': ['0', '00', '2']}
 LAYOUT = {'P': ['primary'], 'PR': ['primary', 'replica'], 'PRR': ['primary', 'replica', 'replica'], 'R': ['replica'],
           'PP': ['primary', 'primary'], 'Pdup': ['primary', 'DUP']}
 
